@@ -119,8 +119,8 @@ def gen_history(r, n_ops):
             ops.append("%s %d %d %d" % (["copy", "copy", "scopy"][r() % 3], r() % nviews, r() % nviews, r() % 3))
             ops.append("bytes")
         elif c < 89 and nviews:
-            # copyWithin: overlapping either way, clamped arguments, optional end
-            ops.append("cw %d %d %d %s" % (r() % nviews, r() % 6, r() % 6, "-" if r() % 2 else str(r() % 7)))
+            # copyWithin: overlapping either way, negative (relative) and clamped arguments, optional end
+            ops.append("cw %d %d %d %s" % (r() % nviews, r() % 12 - 5, r() % 12 - 5, "-" if r() % 2 else str(r() % 14 - 6)))
             ops.append("bytes")
         elif c < 92:
             k = [x for x in kinds if x != "u8c"][r() % 9]
@@ -235,5 +235,5 @@ def run(ck):
         "operation_mix": op_kinds,
         "error_kinds_hit": errors,
         "samples": [kept_ops[0][:12], kept_ops[-1][:12]],
-        "partial": ["Float32/Float16 elements, fill/subarray/slice/sort, SharedArrayBuffer and Atomics are not modelled; copyWithin and set(typedArray) are modelled for non-negative integer arguments"],
+        "partial": ["Float32/Float16 elements, fill/subarray/slice/sort, SharedArrayBuffer and Atomics are not modelled; copyWithin (any integer arguments) and set(typedArray) are modelled"],
     })
